@@ -1,0 +1,73 @@
+//go:build verif
+
+package dhcp
+
+import (
+	"net"
+	"time"
+
+	"github.com/insomniacslk/dhcp/dhcpv4"
+)
+
+// VerifHandle feeds one decoded DHCPv4 message to the slow-path packet handler exactly as
+// the server4 listener would.
+func (s *Server) VerifHandle(conn net.PacketConn, peer net.Addr, req *dhcpv4.DHCPv4) {
+	s.handleDHCP(conn, peer, req)
+}
+
+// VerifCleanupExpired runs one iteration of the lease cleanup ticker.
+func (s *Server) VerifCleanupExpired() {
+	s.cleanupExpiredLeases()
+}
+
+// VerifLease is a read-only copy of one lease-table entry.
+type VerifLease struct {
+	MAC       string
+	IP        net.IP
+	PoolID    uint32
+	ExpiresAt time.Time
+	CircuitID []byte
+	SessionID string
+}
+
+// VerifLeases returns a snapshot of the lease table (MAC index) and of the circuit-id index.
+func (s *Server) VerifLeases() (byMAC []VerifLease, byCircuit map[string]VerifLease) {
+	s.leasesMu.RLock()
+	for mac, l := range s.leases {
+		byMAC = append(byMAC, VerifLease{MAC: mac, IP: append(net.IP{}, l.IP...), PoolID: l.PoolID, ExpiresAt: l.ExpiresAt,
+			CircuitID: append([]byte{}, l.CircuitID...), SessionID: l.SessionID})
+	}
+	s.leasesMu.RUnlock()
+	byCircuit = map[string]VerifLease{}
+	s.leasesByCircuitIDMu.RLock()
+	for k, l := range s.leasesByCircuitID {
+		byCircuit[k] = VerifLease{MAC: l.MAC.String(), IP: append(net.IP{}, l.IP...), PoolID: l.PoolID, ExpiresAt: l.ExpiresAt,
+			CircuitID: append([]byte{}, l.CircuitID...), SessionID: l.SessionID}
+	}
+	s.leasesByCircuitIDMu.RUnlock()
+	return
+}
+
+// VerifPoolSnapshot is a read-only copy of a pool's allocation state.
+type VerifPoolSnapshot struct {
+	Allocated   map[string]net.IP
+	Available   []net.IP
+	Unavailable []string
+}
+
+// VerifSnapshot copies the pool's allocation state.
+func (p *Pool) VerifSnapshot() VerifPoolSnapshot {
+	p.mu.Lock()
+	defer p.mu.Unlock()
+	out := VerifPoolSnapshot{Allocated: map[string]net.IP{}}
+	for k, v := range p.allocated {
+		out.Allocated[k] = append(net.IP{}, v...)
+	}
+	for _, v := range p.available {
+		out.Available = append(out.Available, append(net.IP{}, v...))
+	}
+	for k := range p.unavailable {
+		out.Unavailable = append(out.Unavailable, k)
+	}
+	return out
+}
